@@ -223,10 +223,28 @@ def run(ctx):
     sch = base.methods.get("save_checkpoint_to_hdf")
     ev2, _ = fold(repo, sch, base, max_depth=1, no_inline={"aspire.utils:dump_state"})
     ds_ev = [e for e in ev2.events if e.callee == "aspire.utils:dump_state"]
-    ok = len(ds_ev) == 1 and dict(ds_ev[0].kwargs).get("path") == T.atom("path") and T.atom("dsetname") in T.phi_leaves(dict(ds_ev[0].kwargs).get("dsetname", T.NONE)) \
+    dsv = dict(ds_ev[0].kwargs).get("dsetname", T.NONE) if ds_ev else T.NONE
+    ok = len(ds_ev) == 1 and dict(ds_ev[0].kwargs).get("path") == T.atom("path") and T.select(dsv, ("is", T.atom("dsetname"), T.NONE), False) == T.atom("dsetname") \
         and ds_ev[0].args[:2] == (T.atom("state"), T.atom("h5_file"))
     ctx.decide(ok, "C12.route", sch.ident, loc_of(sch), "save_checkpoint_to_hdf forwards state, file, group and dataset name to dump_state",
                "save_checkpoint_to_hdf does not forward the given group / dataset name to dump_state", disc="forward")
+    # the callback built for a file path writes to that file; only "no path" gives the in-memory callback
+    dfc = base.methods.get("default_file_checkpoint_callback")
+    fp_ = T.atom(dfc.params[1])
+    r_none = T.strip_raise(Evaluator(repo, max_depth=1, assume=lambda c: True if c == ("is", fp_, T.NONE) else None).run(dfc, base))
+    r_path = T.strip_raise(Evaluator(repo, max_depth=1, assume=lambda c: False if c == ("is", fp_, T.NONE) else None).run(dfc, base))
+    closures = {f"{dfc.ident}.<locals>.{n}" for n in dfc.nested}
+    okcb = r_path[0] == "ref" and r_path[1] in closures and not (r_none[0] == "ref" and r_none[1] in closures)
+    writes = False
+    if okcb:
+        cbf = repo.func(r_path[1])
+        evc = Evaluator(repo, max_depth=0)
+        evc.run(cbf, base, args={})
+        opens = [e for e in evc.events if e.callee.endswith("AspireFile") and e.args and e.args[1:2] == (T.K("a"),)]
+        saves = [e for e in evc.events if e.callee.endswith("save_checkpoint_to_hdf") and not e.conds]
+        writes = len(opens) == 1 and len(saves) == 1 and T.atom(cbf.params[0]) in saves[0].args
+    ctx.decide(okcb and writes, "C12.route", dfc.ident, loc_of(dfc), "for a file path the default callback is the closure that appends the state to that file; the in-memory callback is used only without a path",
+               f"for a file path default_file_checkpoint_callback returns {T.show(r_path)[:100]} (without a path: {T.show(r_none)[:80]}): checkpoints do not reach the file", disc="callback")
     dst = repo.func("aspire.utils:dump_state")
     ev3, _ = fold(repo, dst, None, max_depth=1, no_inline={"aspire.utils:dump_pickle_to_hdf"})
     pk = [e for e in ev3.events if e.callee.endswith("pickle.dump")]
@@ -389,6 +407,8 @@ MUTANTS += [
     M("context cadence ignored", _A, "checkpoint_every = defaults[\"every\"]\n            checkpoint_save_config = defaults[\"save_config\"]\n        saved_flow", "checkpoint_save_config = defaults[\"save_config\"]\n        saved_flow", "C12.wire"),
     M("file path not handed to the sampler", _A, "kwargs.setdefault(\"checkpoint_file_path\", checkpoint_path)\n", "", "C12.wire"),
     M("handover only for samplers without checkpoint support", _A, "if not {\"checkpoint_file_path\", \"checkpoint_every\"}.issubset(", "if {\"checkpoint_file_path\", \"checkpoint_every\"}.issubset(", "C12.wire"),
+    M("file callback only without a path", _SB, "if file_path is None:\n            return self.default_checkpoint_callback", "if file_path is not None:\n            return self.default_checkpoint_callback", "C12.route"),
+    M("dataset name replaced when given", _SB, "if dsetname is None:\n            iter_str", "if dsetname is not None:\n            iter_str", "C12.route"),
     M("cadence guard inverted", _B, "and checkpoint_every > 0\n", "and checkpoint_every <= 0\n", "C12.cad"),
     M("requested cadence overwritten by one", _B, "if checkpoint_callback is not None and checkpoint_every is None:\n            checkpoint_every = 1", "if checkpoint_callback is not None or checkpoint_every is None:\n            checkpoint_every = 1", "C12.default"),
     M("given callback replaced by the default", _B, "if checkpoint_callback is None and checkpoint_every is not None:", "if checkpoint_every is not None:", "C12.default"),
